@@ -18,6 +18,7 @@ import (
 
 	"github.com/evanoberholster/imagemeta/exif2"
 	"github.com/evanoberholster/imagemeta/imagehash"
+	"github.com/evanoberholster/imagemeta/imagehash/transforms32"
 
 	"verif/internal/ev"
 	"verif/internal/gen"
@@ -43,6 +44,8 @@ type Case struct {
 	// RefAfter: the sequential reference pass runs after the concurrent phase instead of before it, so that
 	// whatever the library initialises on first use is initialised by overlapping calls
 	RefAfter bool `json:"ref_after,omitempty"`
+	// Portable: the portable Go DCT / gray kernels are selected for the whole case (hook), as on a CPU without AVX2
+	Portable bool `json:"portable_kernels,omitempty"`
 }
 
 func runCall(c Call, inputs [][]byte, imgs []image.Image) string {
@@ -89,6 +92,10 @@ type stamp struct {
 }
 
 func eval(c Case) (f *pbt.Fail) {
+	if c.Portable {
+		transforms32.VerifUseGo()
+		defer transforms32.VerifUsePlatform()
+	}
 	imgs := make([]image.Image, len(c.Images))
 	for i, s := range c.Images {
 		imgs[i] = s.Build()
@@ -265,7 +272,65 @@ func coldCase(seed int) Case {
 	return c
 }
 
+// zoneStress: many goroutines decode, in tight loops, small TIFFs that differ in their time-zone strings: the process-wide
+// zone cache is read and filled at the highest rate the library allows (atomicity slips that are not data races need many
+// interleavings to show).
+func zoneStress(rt *rapid.T) Case {
+	var c Case
+	for i, n := 0, rapid.IntRange(3, 6).Draw(rt, "zs.inputs"); i < n; i++ {
+		f := gen.GenExif(rt, gen.Options{Unbuffered: true, NoGPS: true, MaxForeign: 1})
+		c.Inputs = append(c.Inputs, zones(rt, f.Enc.II))
+		c.Kinds = append(c.Kinds, "tiff")
+	}
+	c.Images = []imgen.Spec{{Kind: "gray", W: 64, H: 64, Content: "noise", Seed: 1, Ratio: "444"}}
+	c.Procs = rapid.SampledFrom([]int{2, 4, 16}).Draw(rt, "zs.procs")
+	ng := rapid.SampledFrom([]int{4, 8, 16}).Draw(rt, "zs.goroutines")
+	per := 3200 / ng
+	for g := 0; g < ng; g++ {
+		var calls []Call
+		a, b := rapid.IntRange(0, len(c.Inputs)-1).Draw(rt, "zs.a"), rapid.IntRange(0, len(c.Inputs)-1).Draw(rt, "zs.b")
+		e := rapid.SampledFrom([]string{"Decode", "DecodeTiff", "ExifParse"}).Draw(rt, "zs.entry")
+		for i := 0; i < per; i++ {
+			in := a
+			if i%2 == 1 {
+				in = b
+			}
+			calls = append(calls, Call{Entry: e, In: in})
+		}
+		c.Plan = append(c.Plan, calls)
+	}
+	return c
+}
+
+// hashStress: every goroutine hashes the same few images with every hash function, portable or platform kernels: the
+// kernels, the gray conversions and the pixel pools are entered by all goroutines at once.
+func hashStress(rt *rapid.T) Case {
+	c := Case{Inputs: [][]byte{[]byte("II*\x00\x08\x00\x00\x00\x00\x00\x00\x00\x00\x00")}, Kinds: []string{"tiff"}}
+	for _, sz := range []int{64, 256} {
+		for _, k := range []string{"rgba", "ycbcr", "gray"} {
+			c.Images = append(c.Images, imgen.Spec{Kind: k, W: sz, H: sz, Content: rapid.SampledFrom([]string{"noise", "smooth"}).Draw(rt, "hs.content"), Seed: rapid.Uint32().Draw(rt, "hs.seed"), Ratio: rapid.SampledFrom([]string{"444", "420"}).Draw(rt, "hs.ratio")})
+		}
+	}
+	c.Procs = rapid.SampledFrom([]int{2, 4, 16}).Draw(rt, "hs.procs")
+	c.Portable = rapid.Bool().Draw(rt, "hs.portable")
+	ng := rapid.SampledFrom([]int{4, 8, 16}).Draw(rt, "hs.goroutines")
+	for g := 0; g < ng; g++ {
+		var calls []Call
+		for i := 0; i < 240/ng+6; i++ {
+			calls = append(calls, Call{Entry: hashEntries[(i+g)%len(hashEntries)], In: (i/len(hashEntries) + g) % len(c.Images)})
+		}
+		c.Plan = append(c.Plan, calls)
+	}
+	return c
+}
+
 func genCase(rt *rapid.T) Case {
+	if gen.Chance(rt, "zone-stress?", 0.15) {
+		return zoneStress(rt)
+	}
+	if gen.Chance(rt, "hash-stress?", 0.12) {
+		return hashStress(rt)
+	}
 	var c Case
 	for i, n := 0, rapid.IntRange(4, 10).Draw(rt, "ninputs"); i < n; i++ {
 		in := gen.GenInput(rt, nil)
@@ -286,6 +351,7 @@ func genCase(rt *rapid.T) Case {
 	c.Procs = rapid.SampledFrom([]int{1, 2, 4, 16, 32}).Draw(rt, "procs")
 	c.Yield = rapid.Bool().Draw(rt, "yield")
 	c.RefAfter = rapid.IntRange(0, 3).Draw(rt, "refafter") == 0
+	c.Portable = rapid.IntRange(0, 2).Draw(rt, "portable") == 0
 	ng := rapid.SampledFrom([]int{2, 3, 4, 8, 16, 32, 64}).Draw(rt, "goroutines")
 	per := rapid.IntRange(5, 30).Draw(rt, "percall")
 	if ng*per > 640 {
@@ -320,8 +386,11 @@ func evalCounted(c Case) *pbt.Fail {
 	for _, in := range c.Inputs {
 		key += fmt.Sprint(len(in))
 	}
-	rec.Case(overlapped, ev.HashS(key), fmt.Sprintf("goroutines:%d", len(c.Plan)), fmt.Sprintf("gomaxprocs:%d", c.Procs), fmt.Sprintf("overlap-observed:%v", overlapped))
+	rec.Case(overlapped, ev.HashS(key), fmt.Sprintf("goroutines:%d", len(c.Plan)), fmt.Sprintf("gomaxprocs:%d", c.Procs), fmt.Sprintf("overlap-observed:%v", overlapped), fmt.Sprintf("portable-kernels:%v", c.Portable))
 	rec.Class("calls", int64(n))
+	if n >= 3000 {
+		rec.Class("zone-stress-plan", 1)
+	}
 	if overlapped && len(c.Plan) <= 4 && n <= 40 {
 		rec.Sample("plan", map[string]any{"plan": c.Plan, "gomaxprocs": c.Procs, "yield": c.Yield, "input_kinds": c.Kinds, "images": c.Images})
 	}
